@@ -469,7 +469,7 @@ func runCase(c Case) string {
 			if m != "" && msg == "" {
 				msg = m
 			}
-		case <-time.After(30 * time.Second):
+		case <-time.After(vkit.WaitCeiling):
 		}
 	}
 	if c.Share > 0 && msg == "" {
